@@ -604,7 +604,7 @@ func (m *Model) stepSetattr(in *In, out *Out) error {
 		if in.SetSz && in.Size > o.Size && m.spaceFail(out) {
 			return nil
 		}
-		if in.How != 0 && out.Status == 10002 {
+		if in.How&3 != 0 && out.Status == 10002 {
 			return nil // NFS3ERR_NOT_SYNC: the guard's ctime is not the object's; no effect
 		}
 		return mm("setattr of %s (size set=%v %d) failed with status %d", m.PathOf(o), in.SetSz, in.Size, out.Status)
